@@ -416,16 +416,68 @@ func (a *Analysis) FieldAccesses(pkgPath, owner, field string) []Access {
 					}
 				case ssa.CallInstruction:
 					// address handed to a callee (json.Unmarshal(&ts.Map)): a write
-					out = append(out, Access{Instr: u, Write: true, Kind: "address passed to " + ssau.CalleeName(u), Fn: f})
+					out = append(out, a.addrPassed(u, fa, f, 0)...)
 				case *ssa.MakeInterface:
 					for _, r2 := range ssau.Referrers(u) {
 						if ci, ok := r2.(ssa.CallInstruction); ok {
-							out = append(out, Access{Instr: ci, Write: true, Kind: "address passed to " + ssau.CalleeName(ci), Fn: f})
+							out = append(out, a.addrPassed(ci, u, f, 0)...)
 						}
 					}
 				}
 			}
 		})
+	}
+	return out
+}
+
+// addrPassed: the address of the field (addr, in function f) is an argument of the call ci.  A callee outside the
+// analysed set writes through it.  A static callee that is analysed here is looked into: what it does with the
+// parameter that holds the address is what is done to the field, at that place and with the locks held there
+// (`recode(x, &ts.Map)` with json.Unmarshal(js, m) inside is judged like json.Unmarshal(js, &ts.Map)).
+func (a *Analysis) addrPassed(ci ssa.CallInstruction, addr ssa.Value, f *ssa.Function, depth int) []Access {
+	direct := []Access{{Instr: ci, Write: true, Kind: "address passed to " + ssau.CalleeName(ci), Fn: f}}
+	h := calleeOf(ci.Common())
+	if _, isCall := ci.(*ssa.Call); !isCall || h == nil || !a.inSet[h] || h.Blocks == nil || depth > 3 {
+		return direct
+	}
+	var out []Access
+	for i, arg := range ci.Common().Args {
+		if arg != addr {
+			continue
+		}
+		if i >= len(h.Params) {
+			return direct
+		}
+		p := h.Params[i]
+		for _, r := range ssau.Referrers(p) {
+			switch u := r.(type) {
+			case *ssa.DebugRef:
+			case *ssa.Store:
+				if u.Addr != ssa.Value(p) {
+					return direct // the address itself is stored: not followed
+				}
+				out = append(out, Access{Instr: u, Write: true, Kind: "assign field", Fn: h})
+			case *ssa.UnOp:
+				for _, r2 := range ssau.Referrers(u) {
+					out = append(out, classify(r2, u, h)...)
+				}
+			case ssa.CallInstruction:
+				out = append(out, a.addrPassed(u, p, h, depth+1)...)
+			case *ssa.MakeInterface:
+				for _, r2 := range ssau.Referrers(u) {
+					if c2, ok := r2.(ssa.CallInstruction); ok {
+						out = append(out, a.addrPassed(c2, u, h, depth+1)...)
+					} else {
+						return direct
+					}
+				}
+			default:
+				return direct
+			}
+		}
+	}
+	if len(out) == 0 {
+		return direct
 	}
 	return out
 }
